@@ -88,6 +88,21 @@ pub fn gen_config(rng: &mut Rng, profile: Profile) -> Config {
             _ => (Some(d), Some(d * 2)),
         };
         let keys = *rng.pick(&[120u32, 150, 250, 600]);
+        if rng.chance(1, 3) {
+            // size-aware variant: every entry weighs 10, the cache fills up to (almost) its
+            // capacity, so the size estimate the popularity table is derived from keeps growing
+            return Config {
+                kind,
+                cap: Some(*rng.pick(&[keys as u64 * 10, keys as u64 * 8, 10_000])),
+                weigher: true,
+                ttl: None,
+                tti: None,
+                hasher: HashMode::Mix(rng.below(1000)),
+                density: if rng.chance(1, 2) { Density::Every } else { Density::Sparse },
+                keys,
+                initial_capacity: None,
+            };
+        }
         return Config {
             kind,
             cap: if rng.chance(1, 2) { None } else { Some(100_000) },
@@ -326,6 +341,24 @@ impl Gen {
             return; // already filled: continue with random probes
         }
         let n = cfg.keys;
+        if cfg.weigher {
+            // fill up with recorded lookups and maintenance runs in between
+            for k in 0..n {
+                let vid = self.vid();
+                self.script.push_back(Op::Insert { k, vid, w: 10 });
+                if k % 7 == 3 {
+                    self.script.push_back(Op::Get { k: self.rng.below(k as u64 + 1) as u32 });
+                }
+                if k % 50 == 49 && cfg.kind == Kind::Sync {
+                    self.script.push_back(Op::Sync);
+                }
+            }
+            for _ in 0..10 {
+                self.script.push_back(Op::Get { k: self.rng.below(n as u64) as u32 });
+            }
+            self.script.push_back(Op::Sync);
+            return;
+        }
         for k in 0..n {
             let vid = self.vid();
             self.script.push_back(Op::Insert { k, vid, w: 1 });
